@@ -26,6 +26,15 @@ def scripted_election(n, i=1):
     return ev
 
 
+def scripted_duel(n):
+    """two candidates in the same term asking everybody for a vote (no interference)"""
+    if n < 2:
+        return []
+    ev = [("ERVTimeout", 1, True, 0), ("ERVTimeout", 2, True, 0)]
+    ev += [("ERVSend", 1, 0, True)] * (n + 1) + [("ERVSend", 2, 0, True)] * (n + 1)
+    return ev
+
+
 def tuple_event(e):
     """JSON list -> event tuple"""
     e = list(e)
